@@ -259,4 +259,52 @@ def opOf : COp → Option JOp
 
 def opsOf (cs : List COp) : List JOp := cs.filterMap opOf
 
+/-! ### `clear()` and reuse
+
+For the join with index `i`, `clear()` is its own `unregister_join(j<i>)`: its current life ends
+there (and must satisfy the single-join specification), it must stay silent until it is registered
+again, and the life that starts then is compared with the reference join of what arrives from
+then on. -/
+
+/-- a history with `clear()` calls as the join with index `i` sees it -/
+def viewX (i : Nat) : XOp → COp
+  | .ctl c => c
+  | .clear => .unreg i
+
+/-- `multiOkC` for histories with `clear()`: every join's column is fine life by life, where a
+`clear()` ends the current life of **every** join -/
+def multiOkX : Nat → List JoinDef → List XOp → List (List (List (Nat × Nat))) → Bool
+  | _, [], xs, obs => obs.length == xs.length && obs.all (·.isEmpty)
+  | i, j :: js, xs, obs =>
+    match heads obs with
+    | some col => livesOk i j true [] [] (xs.map (viewX i)) col && multiOkX (i + 1) js xs (tails obs)
+    | none => false
+
+def multiObsTraceX (js : List JoinDef) (xs : List XOp) : List (List (List (Nat × Nat))) :=
+  (multiTraceX ((idxFrom 0 js).map (fun x => (x.1, x.2, some init))) xs).map
+    (fun row => row.map (fun out => out.map idPair))
+
+/-- the case grammar's rule with `clear()`: a join is never registered while it is registered
+(`clear()` itself is allowed at any time and leaves every join unregistered) -/
+def ctlValidX (i : Nat) : Bool → List XOp → Bool
+  | _, [] => true
+  | _, .clear :: xs => ctlValidX i false xs
+  | reg, .ctl (.op _) :: xs => ctlValidX i reg xs
+  | reg, .ctl (.unreg k) :: xs => if k = i then reg && ctlValidX i false xs else ctlValidX i reg xs
+  | reg, .ctl (.reg k) :: xs => if k = i then !reg && ctlValidX i true xs else ctlValidX i reg xs
+
+/-- well-formedness with `clear()`: ids unique per consumed stream within every life -/
+def WFX (n : Nat) (js : List JoinDef) (xs : List XOp) : Prop :=
+  ∀ x ∈ idxFrom n js, ∀ life ∈ livesOf x.1 true [] (xs.map (viewX x.1)), WF (joinOps x.2 life)
+
+instance (n : Nat) (js : List JoinDef) (xs : List XOp) : Decidable (WFX n js xs) := by
+  unfold WFX; exact inferInstance
+
+/-- the routed calls of a history with `clear()` -/
+def opOfX : XOp → Option JOp
+  | .ctl c => opOf c
+  | .clear => none
+
+def opsOfX (xs : List XOp) : List JOp := xs.filterMap opOfX
+
 end C14
